@@ -522,12 +522,14 @@ void rand_args(int fn, std::size_t hn, std::size_t nn, Case& k, vf::Rng& r, F f)
 
 // ---------------------------------------------------------------- statistics (batched: the per-call engine calls cost more than the calls under test)
 struct Tally {
-    std::uint64_t evals[4]{};          // per sub
-    std::uint64_t cls[8]{};            // class hits
-    std::uint64_t total{0}, nt{0};
+    std::uint64_t evals[4]{}; // per sub
+    std::uint64_t cls[9]{};   // class hits
+    std::uint64_t searches{0}, compares{0}, total{0};
 } g_t;
 char const* const sub_names[] = {"search", "compare", "prefix_suffix_contains", "substr_copy_access"};
-char const* const cls_names[] = {"empty needle", "empty haystack", "pos >= size", "needle longer than haystack", "match at position != 0", "NUL or >= 0x80 character involved", "haystack is a null view", "search finds nothing (npos)"};
+// classes 0..5 are fractions of the search calls, 6 of the compare/relational calls, 7..8 of all calls
+char const* const cls_names[] = {"search: empty needle", "search: empty haystack", "search: pos >= size", "search: needle longer than haystack", "search: match at position != 0", "search: nothing found (npos)",
+    "compare: result != 0", "all: NUL or >= 0x80 unit involved", "all: haystack is a null view"};
 auto sub_of(int fn) -> int
 {
     if (fn < N_SEARCH_FNS) { return 0; }
@@ -541,13 +543,13 @@ void flush_tally()
         if (g_t.evals[i]) { vf::eval(sub_names[i], g_t.evals[i]); }
         g_t.evals[i] = 0;
     }
-    for (int i = 0; i < 8; ++i) {
+    for (int i = 0; i < 9; ++i) {
         auto& c = vf::stats().classes[cls_names[i]];
         c.first += g_t.cls[i];
-        c.second += g_t.total;
+        c.second += i <= 5 ? g_t.searches : (i == 6 ? g_t.compares : g_t.total);
         g_t.cls[i] = 0;
     }
-    g_t.total = 0;
+    g_t.total = g_t.searches = g_t.compares = 0;
 }
 
 struct PairFlags {
@@ -563,7 +565,7 @@ auto pair_flags(Case const& k) -> PairFlags
 
 // executes the call described by k (buffers b belong to k's haystack/needle); returns false after a mismatch
 template <typename Char>
-auto one(Bufs<Char> const& b, Case const& k, PairFlags pf, bool random) -> bool
+auto one(Bufs<Char> const& b, Case const& k, PairFlags pf, bool random, bool digest = true) -> bool
 {
     auto const info = fn_info(k.fn);
     auto const sub  = sub_of(k.fn);
@@ -583,25 +585,32 @@ auto one(Bufs<Char> const& b, Case const& k, PairFlags pf, bool random) -> bool
     bool const c3      = info.uses_needle && nn > hn;
     bool const c4      = info.is_search && g_last != 0 && g_last != -1;
     bool const c5      = pf.special;
-    g_t.cls[0] += c0;
-    g_t.cls[1] += c1;
-    g_t.cls[2] += c2;
-    g_t.cls[3] += c3;
-    g_t.cls[4] += c4;
-    g_t.cls[5] += c5;
-    g_t.cls[6] += k.hnull;
-    g_t.cls[7] += info.is_search && g_last == -1;
+    if (info.is_search) {
+        ++g_t.searches;
+        g_t.cls[0] += c0;
+        g_t.cls[1] += c1;
+        g_t.cls[2] += c2;
+        g_t.cls[3] += c3;
+        g_t.cls[4] += c4;
+        g_t.cls[5] += g_last == -1;
+    } else if (sub == 1) {
+        ++g_t.compares;
+        g_t.cls[6] += k.fn == rel_vv || k.fn == rel_vz || k.fn == rel_zv ? (g_last & 1) == 0 : g_last != 0;
+    }
+    g_t.cls[7] += c5;
+    g_t.cls[8] += k.hnull;
     if (c0 || c1 || c2 || c3 || c4 || c5) {
-        if (random) {
+        if (!random) {
+            vf::nontrivial_count();
+        } else if (digest) { // random phase: one digest per (pair, function) - the first argument tuple drawn
             std::uint64_t h = vf::mix(vf::mix(vf::mix(vf::mix(vf::mix(vf::mix(0xC08ULL, k.ck), k.fn), k.pos), k.cnt), k.pos2), k.cnt2);
             h               = vf::fnv(k.hay.data(), k.hay.size() * 4, h);
             h               = vf::fnv(k.nee.data(), k.nee.size() * 4, vf::mix(h, 0xFF));
             vf::nontrivial(h);
-        } else {
-            vf::nontrivial_count();
         }
-        if (c4 && c5 && (g_t.total & 0x3FF) == 0) {
-            vf::sample(sub_names[sub], [&] { return show_case(k) + " -> " + lnum(g_last); });
+        static std::uint64_t nth[4] = {0, 0, 0, 0};
+        if ((c4 || sub != 0) && hn >= 2 && (++nth[sub] % 4099) == 1) {
+            vf::sample(sub_names[sub], [&] { return show_case(k) + " -> std answers " + lnum(g_last); });
         }
     }
     return true;
@@ -713,7 +722,7 @@ void random_pairs(vf::Ctx& c, Scope<Char> const& sc)
             bool ok = true;
             for (int rep = 0; rep < (info.args == A_NONE ? 1 : 3); ++rep) {
                 rand_args(fn, k.hay.size(), k.nee.size(), k, r, [&] {
-                    if (ok) { ok = one<Char>(b, k, pf, true); }
+                    if (ok) { ok = one<Char>(b, k, pf, true, rep == 0); }
                 });
             }
             if (!ok && !c.memory_only) { return; }
@@ -743,20 +752,20 @@ void vf_run(vf::Ctx& c)
     bool const t       = c.thorough();
 #if !defined(C08_WIDE)
     // the property's scope: all haystacks of length <= 4 (thorough 5), needles <= 3 (4) over {a, b, NUL, 0xE9}
-    Scope<char> sc{CK_CHAR, {'a', 'b', 0, 0xE9}, t ? 5U : 4U, t ? 4U : 3U, t ? 30000U : 2500U, 64};
+    Scope<char> sc{CK_CHAR, {'a', 'b', 0, 0xE9}, t ? 5U : 4U, t ? 4U : 3U, t ? 8000U : 2500U, 64};
     enumerate<char>(c, sc, work);
     random_pairs<char>(c, sc);
 #else
-    Scope<wchar_t> sw{CK_WCHAR, {L'a', L'b', 0, 0x20AC}, t ? 4U : 3U, t ? 3U : 2U, t ? 12000U : 1200U, 64};
+    Scope<wchar_t> sw{CK_WCHAR, {L'a', L'b', 0, 0x20AC}, t ? 4U : 3U, t ? 3U : 2U, t ? 4000U : 1200U, 64};
     enumerate<wchar_t>(c, sw, work);
     random_pairs<wchar_t>(c, sw);
-    Scope<char16_t> s16{CK_CHAR16, {u'a', u'b', 0, 0xD83D}, t ? 4U : 3U, t ? 3U : 2U, t ? 12000U : 1200U, 64};
+    Scope<char16_t> s16{CK_CHAR16, {u'a', u'b', 0, 0xD83D}, t ? 4U : 3U, t ? 3U : 2U, t ? 4000U : 1200U, 64};
     enumerate<char16_t>(c, s16, work);
     random_pairs<char16_t>(c, s16);
-    Scope<char8_t> s8{CK_CHAR8, {u8'a', u8'b', 0, 0xC3}, t ? 4U : 3U, 2U, t ? 6000U : 600U, 64};
+    Scope<char8_t> s8{CK_CHAR8, {u8'a', u8'b', 0, 0xC3}, t ? 4U : 3U, 2U, t ? 2000U : 600U, 64};
     enumerate<char8_t>(c, s8, work);
     random_pairs<char8_t>(c, s8);
-    Scope<char32_t> s32{CK_CHAR32, {U'a', U'b', 0, 0x1F600}, t ? 4U : 3U, 2U, t ? 6000U : 600U, 64};
+    Scope<char32_t> s32{CK_CHAR32, {U'a', U'b', 0, 0x1F600}, t ? 4U : 3U, 2U, t ? 2000U : 600U, 64};
     enumerate<char32_t>(c, s32, work);
     random_pairs<char32_t>(c, s32);
 #endif
